@@ -1651,7 +1651,10 @@ func (inv *Invoker) Invoke(args ...Object) (Object, error) {
 	if inv.child == nil {
 		inv.acquire(false)
 	}
-	if inv.child != nil && inv.child.Aborted() {
+	// The VM the Invoker was created for says whether the run is aborted. A
+	// child VM kept from an earlier, aborted run still carries that run's
+	// flag; its Run resets it (or keeps it, under the root's pool lock).
+	if inv.vm != nil && inv.vm.Aborted() {
 		return Undefined, ErrVMAborted
 	}
 	if inv.isCompiled {
